@@ -11,6 +11,7 @@ From Coq Require Import List Bool Arith.
 From Coq Require Import NArith.
 From TV Require Import Model.Engine Proofs.EngineCount Model.EngineToy Proofs.EngineToyProofs.
 From TV Require Import Num.Num Num.F32.
+From TV Require Model.TaffyEngineReal Proofs.TaffyEngineReal Model.TaffyChainReal Proofs.TaffyChainReal.
 From TV Require Model.EngineReal Proofs.EngineReal Model.BlockEngineReal Proofs.BlockEngineReal Model.BlockChainReal Proofs.BlockChainReal
   Model.Block Model.BlockAlg Model.BlockEngine Model.BlockAbs.
 Import ListNotations.
@@ -78,6 +79,7 @@ Qed.
 Module RealCache.
 Import TV.Model.EngineReal TV.Proofs.EngineReal TV.Model.BlockEngineReal TV.Proofs.BlockEngineReal TV.Model.BlockChainReal
   TV.Proofs.BlockChainReal TV.Model.Block TV.Model.BlockAlg TV.Model.BlockEngine TV.Model.BlockAbs.
+Import TV.Model.TaffyEngineReal TV.Proofs.TaffyEngineReal TV.Model.TaffyChainReal TV.Proofs.TaffyChainReal.
 
 (* accounting, any algorithm, any cache behind the interface: at every node the evaluations of the node's algorithm are exactly the
    compute_cached_layout calls the cache did not answer, lossy hits are hits, and -- when ONE evaluation calls the measure function at
@@ -156,11 +158,51 @@ Example C16_real_chain_example :
   option_map (map (fun n => (n_query n, n_hit n, n_lossy n, n_eval n, n_meas n))) (@chain_counts f32 _ CPlain 3 0)
   = Some [(1, 0, 0, 1, 0); (2, 1, 1, 1, 0); (2, 1, 1, 1, 0); (2, 1, 1, 1, 1)]%N.
 Proof. vm_compute. reflexivity. Qed.
+
+(* ---- wave 7a: the COMPLETE engine (block + flex + grid + leaves: Model/TaffyRoot.v `real_algo`) under the real cache
+   (Model/TaffyEngineReal.v `trl_memo`), the instance `vh taffytree cases .. real` / `vh taffytree chains` compare with the
+   implementation layout for layout and count for count.  In flex / grid containers the nine measure slots get traffic. *)
+
+(* accounting for a whole compute_layout of the complete engine, no premise: a node with children never measures, a childless node at
+   most once per evaluation (the log of Leaf.compute_leaf_layout); any number structure, any ghost equality `teq` *)
+Theorem C16_real_taffy_pass_counts :
+  forall (T : Type) (NT : Num T) (teq : T -> T -> bool) f (t : @trtree T) avail t',
+    trl_compute_root teq f (greset _ _ _ t) avail = Some t' ->
+    Forall (fun n => n_query n = n_hit n + n_eval n /\ n_lossy n <= n_hit n /\ n_meas n <= n_eval n)%N (gcounts _ _ _ t').
+Proof. intros. eapply trl_pass_acct; eauto. Qed.
+
+(* THE KNOWN FINDING chain-measure-growth AS A THEOREM ABOUT THE MODEL.  The property says the number of measure calls for a leaf
+   under a single-child chain does not grow with the depth of the chain and stays below 64 x node count.  The chain family number
+   652 of corpus/C16-typical-baseline.json (grid{width:200px, align-items:center} directly above the leaf, then a default flex
+   container, then block{margin:3px, min-width:10px}, repeating; default leaf with the harness's 17-glyph text; max-content) refutes
+   both clauses IN THE MODEL THE CORRESPONDENCE RUNS, over binary32: (nodes, leaf measure calls) at depths 1, 4, 7, 10, 13 are
+   (2, 6), (5, 23), (8, 96), (11, 387), (14, 1530) -- a factor 4 every three levels -- and 1530 > 64 x 14.  `./check C16` replays
+   exactly these chains on the implementation (`vh taffytree chains`): same inputs (the integer encoding is compared), same counts. *)
+Theorem C16_real_chain_growth_refuted :
+  map (fun d => tchain_nodes_meas (growth_case d)) [1; 4; 7; 10; 13]%nat
+  = [Some (2, 6); Some (5, 23); Some (8, 96); Some (11, 387); Some (14, 1530)]%N
+  /\ exists d n m, tchain_nodes_meas (growth_case d) = Some (n, m) /\ (64 * n < m)%N.
+Proof. split; [exact growth_table|exact growth_exceeds]. Qed.
+
+(* the positive counterpart: chains of DEFAULT flex containers (resp. default grid, default block containers) of depth 1..16 over the
+   same leaf: the model measures the leaf at most 6 (6, 1) times and makes at most 20 (26, 3) compute_cached_layout calls per level,
+   whatever the depth; the flex counts are 3, 5, 6, 6, 6, 6 (compare tests/caching.rs, which pins such a count for one tree).
+   By computation over F32; the same chains are compared count for count with the implementation on every run.
+   `_partial`: bounded depth, default styles only, no induction over the depth. *)
+Theorem C16_real_flex_chain_bound_partial :
+  (forall k d, (1 <= d <= 16)%nat ->
+     exists m q, tchain_leaf_meas (kind_case k d) = Some m /\ (m <= kind_meas_bound k)%N /\
+                 tchain_queries (kind_case k d) = Some q /\ (q <= kind_query_rate k * N.of_nat d)%N)
+  /\ map (fun d => tchain_leaf_meas (flex_case d)) (seq 1 6) = [Some 3; Some 5; Some 6; Some 6; Some 6; Some 6]%N.
+Proof. split; [exact kchain_bound|exact flex_chain_counts]. Qed.
 Print Assumptions C16_real_miss_count.
 Print Assumptions C16_real_pass_miss_count.
 Print Assumptions C16_real_counters_are_ghost.
 Print Assumptions C16_real_block_pass_counts.
 Print Assumptions C16_real_chain_bound_partial.
+Print Assumptions C16_real_taffy_pass_counts.
+Print Assumptions C16_real_chain_growth_refuted.
+Print Assumptions C16_real_flex_chain_bound_partial.
 End RealCache.
 
 Print Assumptions C16_hit_is_free.
